@@ -30,7 +30,7 @@ RULE = ("active: lists of 0-4 positive/negated range()/cron() specifications (da
         "non-existent dates) x evaluation times = every resolved end point and end point +-1us, plus random times of a "
         "two-year window; handler: the same lists through TimeActiveDecorator.handle_dispatch on occurrence sequences with "
         "gaps around hold_off (incl. exact ties); ha: scripts of 6-8 functions (state / event / time triggers, optional "
-        "trigger expression, @state_active over watched / unwatched / missing entities and .old, @time_active windows "
+        "trigger expression, state_hold with window end points inside the hold, @state_active over watched / unwatched / missing entities and .old, @time_active windows "
         "around the scenario times, hold_off, both decorator orders) driven by timed scenarios on the virtual clock under "
         "both subsystems, with direct calls interleaved.  Non-trivial: at least one specification or occurrence; distinct "
         "by payload.")
@@ -616,7 +616,16 @@ def gen_ha(rng, n_scen):
                 ks = sorted(rng.sample(range(1, int(end * 4)), min(rng.randrange(3, 9), int(end * 4) - 1)))
                 f["instants"] = [k / 4 + 0.125 for k in ks]
                 f["startup"] = rng.random() < 0.3 and not tick
-            f["specs"] = (gen_window_near(rng, end, f["instants"] if tick else None)) if f["ta"] else []
+            pts = f["instants"] if tick else None
+            if trig == "state" and not tick and rng.random() < 0.45:
+                # state_hold on odd multiples of 1/8 s: a completion never coincides with a stimulus; window end points are
+                # put INSIDE the hold intervals (the gates must see the completion instant, not the start of the hold)
+                f["shold"] = rng.choice([0.375, 1.125, 2.125])
+                mids = [s[0] + f["shold"] / 2 for s in stim if s[1] == "x"]
+                if len(mids) >= 2 and rng.random() < 0.75:
+                    f["ta"] = True
+                    pts = mids
+            f["specs"] = (gen_window_near(rng, end, pts)) if f["ta"] else []
             f["hold"] = rng.choice(holds) if f["ta"] and not tick else None
             funcs.append(f)
         scen = {"id": sc_i, "stim": stim, "funcs": funcs, "end": end, "tick": tick}
@@ -663,7 +672,11 @@ def corpus_cases():
              fn("event", en_eq, True, [], 5, False),              # F2 (open) time_active above state_active, hold_off
              fn("event", en_eq, True, [], 5, True),               #    control: the other order
              fn("event", nosuch, False, [], None, True),          # F3 (fixed) falsy, not False
-             fn("event", cnt_ne, False, [], None, True)]          # F4 (fixed) stale table
+             fn("event", cnt_ne, False, [], None, True),          # F4 (fixed) stale table
+             dict(fn("state", None, True, [{"neg": False, "kind": "range", "s": ["at", "none", ["hms", 12, 0, 2500000], None],
+                                            "e": ["at", "none", ["hms", 12, 0, 11000000], None]}], None, True), shold=1.125)]
+    # last function: state_hold=1.125 - the change at 2.0 s completes at 3.125 s (window entered at 2.5 s: must run), the change
+    # at 10.5 s completes at 11.625 s (window left at 11 s: must not run); seeded change C07_1 evaluated the start of the hold
     stim = [[0.5, "en", "0"], [1.0, "ev", 1], [2.0, "x", "2"], [3.0, "cnt", "1"], [3.5, "en", "1"], [4.0, "ev", 3],
             [4.5, "direct", 4], [7.0, "ev", 5], [9.0, "ev", 6], [10.0, "ev", 7], [10.5, "x", "8"], [14.0, "ev", 9]]
     scen = {"id": "corpus", "stim": stim, "funcs": funcs, "end": 15.0}
@@ -777,10 +790,24 @@ def func_events(scen, fi):
             dicts.append({})
         evs.append(e)
 
+    # state_hold: the first qualifying change starts the hold, further qualifying changes are absorbed, a change that makes
+    # the trigger expression false cancels it; the OCCURRENCE the guards see is the completion (start + hold): that is the
+    # occurrence time for @time_active / hold_off, the values are those of the change that started the hold
+    hold = f.get("shold")
+    pending = [None]
+
+    def flush(upto):
+        if pending[0] is not None and pending[0][0] + hold < upto:
+            c = pending[0][0] + hold
+            occ(c, pending[0][1], c, True, pending[0][2])
+            pending[0] = None
+
     if f["trig"] == "time" and f.get("startup"):
         occ(0.0, "startup", None, True, {})     # the function is defined before any stimulus: nothing exists yet
     for t, _, s in timeline:
         what = s[1]
+        if hold:
+            flush(t)
         if what in ("en", "cnt"):
             state[what] = s[2]
         elif what == "x":
@@ -790,7 +817,12 @@ def func_events(scen, fi):
                 last_x = s[2]
             if f["trig"] == "state":
                 ok = (int(s[2]) % 3 != 0) if f["expr"] else True
-                occ(t, "x" + s[2], t, ok, {"pyscript.x": s[2], "pyscript.x.old": oldv})
+                if not hold:
+                    occ(t, "x" + s[2], t, ok, {"pyscript.x": s[2], "pyscript.x.old": oldv})
+                elif not ok:
+                    pending[0] = None
+                elif pending[0] is None:
+                    pending[0] = [t, "x" + s[2], {"pyscript.x": s[2], "pyscript.x.old": oldv}]
         elif what == "ev":
             if f["trig"] == "event":
                 occ(t, "e" + str(s[2]), t, (s[2] % 3 != 0) if f["expr"] else True, {})
@@ -798,6 +830,8 @@ def func_events(scen, fi):
             evs.append({"t": t, "kind": "direct", "id": "d" + str(s[2])})
         elif what == "tick":
             occ(t, "t" + sec_str(t), t, True, {})
+    if hold:
+        flush(float("inf"))       # the scenario runs on for longer than any hold
     return evs
 
 
@@ -820,7 +854,8 @@ def script_for(scen):
              ""]
     for fi, f in enumerate(scen["funcs"]):
         if f["trig"] == "state":
-            trig = '@state_trigger("int(pyscript.x) % 3 != 0")' if f["expr"] else '@state_trigger("pyscript.x")'
+            hk = f", state_hold={f['shold']}" if f.get("shold") else ""
+            trig = f'@state_trigger("int(pyscript.x) % 3 != 0"{hk})' if f["expr"] else f'@state_trigger("pyscript.x"{hk})'
         elif f["trig"] == "event":
             trig = '@event_trigger("ev", "n % 3 != 0")' if f["expr"] else '@event_trigger("ev")'
         else:
@@ -877,7 +912,7 @@ def _run_scenario(arg):
                 env.hass.bus.async_fire("direct", {"seq": v})
             else:
                 env.hass.states.async_set("pyscript." + what, v)
-        await _goto(env, scen["end"] + 0.5)
+        await _goto(env, scen["end"] + 3.0)       # longer than any state_hold
         errs = sorted({m.split("\n")[-2][:80] if "\n" in m else m[:80] for (n, lvl, m) in env.log
                        if lvl == "ERROR" and "ZeroDivisionError" not in m and "pyscript.eval" not in n})
         return early + [list(r) for r in env.records], errs
@@ -1127,7 +1162,8 @@ def shrink(c, reason):
 def extra_coverage(cases):
     cov = {"streams": {}, "impl_outcomes": {}, "date_forms": {}, "time_forms": {}, "spec_kinds": {}, "boundary_hits": 0,
            "wrapping_ranges": 0, "subsystems": {}, "trigger_kinds": {}, "state_active_values": {}, "hold_off_exact_ties": 0,
-           "direct_calls": 0, "decorator_orders": {}, "lean_spec_vs_python_oracle_mismatches": 0}
+           "direct_calls": 0, "decorator_orders": {}, "lean_spec_vs_python_oracle_mismatches": 0,
+           "state_hold_completions": 0, "state_hold_straddling_a_window_end": 0}
 
     def bump(d, k):
         d[k] = d.get(k, 0) + 1
@@ -1173,6 +1209,12 @@ def extra_coverage(cases):
                 if e["kind"] == "direct":
                     cov["direct_calls"] += 1
                     continue
+                if f.get("shold") and e["wall"] is not None:
+                    cov["state_hold_completions"] += 1
+                    t1 = BASE + dt.timedelta(seconds=e["wall"])
+                    t0 = t1 - dt.timedelta(seconds=f["shold"])
+                    if f["ta"] and oracle_window(f["specs"], t0, BASE) != oracle_window(f["specs"], t1, BASE):
+                        cov["state_hold_straddling_a_window_end"] += 1
                 bump(cov["state_active_values"], e["sa"] if f["sa"] is not None else "-")
                 if f["hold"] and acc is not None and e["t"] - acc == f["hold"]:
                     cov["hold_off_exact_ties"] += 1
